@@ -870,7 +870,12 @@ def grad_einsum(argnum, ans, operands_, kwargs):
                 new_operands = (g,) + rest_of_ops
 
             new_subscripts = new_input_subs + "->" + subs_wrt
-            return unbroadcast(anp.einsum(new_subscripts, *new_operands), result_meta)
+            out = unbroadcast(anp.einsum(new_subscripts, *new_operands), result_meta)
+            if anp.shape(out) != result_meta[0]:
+                # a named subscript had extent 1 in every other operand and was broadcast
+                # against this one: every entry along it receives the same cotangent
+                out = anp.broadcast_to(out, result_meta[0])
+            return out
         else:  # using (op0, sublist0, op1, sublist1, ..., sublistout) convention
             if len(operands) % 2 == 0:
                 raise NotImplementedError("Need sublistout argument")
